@@ -77,6 +77,7 @@ class Lib:
         f["hp2dec_v"] = lambda x: float(an.hp2dec_v(np.array([x]))[0])
         self.fn = f
         self.calls = 0
+        self.forms = 0
 
     def apply(self, name, v):
         self.calls += 1
@@ -108,14 +109,23 @@ class Lib:
         elif rep == "dms":
             D, r = divmod(w, 3600)
             MM, SS = divmod(r, 60)
+            self.forms += 1
+            if self.forms % 3 == 0:         # the sign flag as the documented fourth POSITIONAL argument
+                return an.DMSAngle(D, MM, float(Fraction(SS) + Fraction(f, NANO)), not neg)
             return an.DMSAngle(D, MM, float(Fraction(SS) + Fraction(f, NANO)), positive=not neg)
         elif rep == "ddm":
             D, r = divmod(w, 3600)
+            self.forms += 1
+            if self.forms % 3 == 0:         # ... third positional argument
+                return an.DDMAngle(D, float((Fraction(r) + Fraction(f, NANO)) / 60), not neg)
             return an.DDMAngle(D, float((Fraction(r) + Fraction(f, NANO)) / 60), positive=not neg)
         else:
             raise ValueError(rep)
         if below and x != 0.0:
             x = math.nextafter(x, 0.0)
+        self.forms += 1
+        if self.forms % 4 == 0:             # "as numbers": a numpy scalar is a number too (same value)
+            return self.np.float64(sgn * x)
         return sgn * x
 
 
